@@ -32,6 +32,7 @@ package main
 //	mupd <key> <val> <w>         Update on the source and on the imported trie -> <res> <res> <root> <w> <root> <w>
 //	mdel <key> / mupdel <key>    Delete / Update(nil) on both
 //
+//	commitb <lvl> / wbatch       Commit(lvl) returning its batch, kept unwritten / the batch written later (GC passes in between)
 //	commit2 <lvl>                Commit(lvl), then a second Commit(lvl) on the now clean root (a periodic flush with nothing
 //	                             to write), then both batches committed in call order      -> like commit
 //	fault <class> <k>            arm the storage: the k-th next call of <class> (get | bput | bdel | bcommit) fails once -> ok
@@ -59,9 +60,10 @@ import (
 )
 
 const (
-	findF2   = "C11-F2-equal-content-shares-node"
-	findC10W = "C10-forged-child-weights"
-	findC10K = "C10-node-kind-confusion"
+	findF2    = "C11-F2-equal-content-shares-node"
+	findC10W  = "C10-forged-child-weights"
+	findC10K  = "C10-node-kind-confusion"
+	findGCGap = "C11-gc-between-commit-and-batch-write"
 )
 
 type wcheckpoint struct {
@@ -121,6 +123,11 @@ type wrun struct {
 	faultInOp        bool // the armed failure fired during the current op
 	abandoned        bool // an observation matched: the rest of the case is skipped
 	faultClass       string
+	pbatch           storage.Batcher // the batch of a Commit that has not been written yet (ops commitb / wbatch)
+	pLvl             int
+	gcSinceCommitB   int  // GC passes since that Commit
+	gcGap            bool // two passes ran between a Commit and the write of its batch
+	gapDamaged       bool // a failure was filed under that finding: the storage is damaged from here on
 	faultK           int
 	commitReadFailed bool            // a Get failed inside the last Commit: its "created" list may miss nodes (fix 955fb55: leak, not loss)
 	changed          map[string]bool // keys changed since the last commit / reload / rollback
@@ -213,6 +220,17 @@ func (x *wrun) failIn(cover string, i int, f string, a ...interface{}) {
 	if x.quiet {
 		x.held = append(x.held, msg)
 		return
+	}
+	if cover == "" && x.gcGap && strings.Contains(msg, "notfound") {
+		// the previous durable root is unresolvable — and so is whatever shares its deleted nodes: the live trie's collapsed
+		// references, later roots built on them (reads that resolve nodes only; after a first such failure any operation)
+		site := x.gapDamaged
+		for _, s := range f2Sites {
+			site = site || strings.Contains(msg, s)
+		}
+		if site {
+			cover, x.gapDamaged = findGCGap, true
+		}
 	}
 	if cover == "" && x.f2Covers(msg) {
 		cover = findF2
@@ -610,45 +628,48 @@ func (x *wrun) step1(i int, f []string) string {
 			x.fail(i, "commit failed: %s", out)
 			return out
 		}
-		es := x.newEntries(from)
-		if x.dirty && x.hashedDirty {
-			x.tags["commit-after-hash-read-on-dirty"] = true // the F1 defect (fixed by 8a63293): such a commit wrote nothing
+		return x.afterCommit(i, lvl, from)
+	case "commitb":
+		// Commit(lvl) only: the batch is RETURNED to the caller and kept; nothing is written yet (op wbatch writes it)
+		lvl := atoi(f[1])
+		if x.pbatch != nil {
+			return "skip"
 		}
-		x.commits++
-		x.tags[fmt.Sprintf("commit-lvl:%d", lvl)] = true
-		// keys written by the last commit that wrote anything since the checkpoint: a commit with nothing to write (a periodic
-		// flush) keeps the list — Rollback still has to remove the real commit's nodes
-		puts := map[string]bool{}
-		for _, e := range es {
-			for _, o := range e.ops {
-				if !o.del {
-					puts[o.k] = true
-				}
+		var b storage.Batcher
+		out := guard(func() string {
+			var err error
+			if b, err = x.t.Commit(lvl); err != nil {
+				return werr(err)
 			}
+			return "ok"
+		})
+		if out != "ok" {
+			x.fail(i, "commit failed: %s", out)
+			return out
 		}
-		if len(puts) > 0 {
-			x.lastPuts = puts
-		}
-		root := guard2(func() []byte { return x.t.Root() })
-		x.croot, x.cweight = root, x.t.Weight()
-		x.committed = x.live.clone()
-		x.changed = nil
+		x.pbatch, x.pLvl, x.gcSinceCommitB = b, lvl, 0
 		for _, p := range x.f2Pend {
-			p.committed = true
+			p.committed = true // Commit itself queues what the changes superseded; GC passes count from here
 		}
-		if x.st.fired() == x.fired0 && len(es) > 0 && len(es[0].ops) > 0 {
-			x.commitReadFailed = false // a later commit that wrote something replaced the list
+		x.tags["commit-batch-held"] = true
+		return out
+	case "wbatch":
+		if x.pbatch == nil {
+			return "skip"
 		}
-		x.dirty, x.hashedDirty = false, false
-		x.durable = append(x.durable, wdurable{x.st.logLen(), x.croot, x.cweight, x.committed})
-		if want := canonRootW(x.live, nil); !bytes.Equal(root, want) {
-			x.fail(i, "root after commit %x differs from the canonical root %x of the live content", root, want)
+		from := x.st.logLen()
+		b := x.pbatch
+		x.pbatch = nil
+		if out := guard(func() string {
+			if err := b.Commit(true); err != nil {
+				return "err"
+			}
+			return "ok"
+		}); out != "ok" {
+			x.fail(i, "writing the commit batch failed: %s", out)
+			return out
 		}
-		for _, m := range checkReopen("after the commit batch", x.st, x.croot, x.cweight, x.committed) {
-			x.fail(i, "%s", m)
-		}
-		x.checkWeight(i)
-		return fmt.Sprintf("ok r=%x w=%d %s", root, x.cweight, wmFmtEntries(es))
+		return x.afterCommit(i, x.pLvl, from)
 	case "gc":
 		from := x.st.logLen()
 		out := guard(func() string { return werr(x.t.DeleteNodes()) })
@@ -657,6 +678,14 @@ func (x *wrun) step1(i int, f []string) string {
 			return out
 		}
 		x.tags["gc"] = true
+		if x.pbatch != nil {
+			if x.gcSinceCommitB++; x.gcSinceCommitB >= 2 {
+				// finding C11-gc-between-commit-and-batch-write: the second pass deletes what the unwritten commit superseded —
+				// nodes of the root that is still the last one in storage
+				x.gcGap = true
+				x.tags["finding:gc-gap-condition"] = true
+			}
+		}
 		for _, p := range x.f2Pend {
 			if p.committed {
 				if p.gcs++; p.gcs >= 2 && !x.f2Armed {
@@ -945,6 +974,49 @@ func (x *wrun) opProof(i int, b uint64, slot int) string {
 		x.tags["proof-ok"] = true
 	}
 	return out
+}
+
+// afterCommit: bookkeeping and oracles once a commit's batch has been written (ops commit / commit2 / wbatch)
+func (x *wrun) afterCommit(i int, lvl int, from int) string {
+	es := x.newEntries(from)
+	if x.dirty && x.hashedDirty {
+		x.tags["commit-after-hash-read-on-dirty"] = true // the F1 defect (fixed by 8a63293): such a commit wrote nothing
+	}
+	x.commits++
+	x.tags[fmt.Sprintf("commit-lvl:%d", lvl)] = true
+	// keys written by the last commit that wrote anything since the checkpoint: a commit with nothing to write (a periodic
+	// flush) keeps the list — Rollback still has to remove the real commit's nodes
+	puts := map[string]bool{}
+	for _, e := range es {
+		for _, o := range e.ops {
+			if !o.del {
+				puts[o.k] = true
+			}
+		}
+	}
+	if len(puts) > 0 {
+		x.lastPuts = puts
+	}
+	root := guard2(func() []byte { return x.t.Root() })
+	x.croot, x.cweight = root, x.t.Weight()
+	x.committed = x.live.clone()
+	x.changed = nil
+	for _, p := range x.f2Pend {
+		p.committed = true
+	}
+	if x.st.fired() == x.fired0 && len(es) > 0 && len(es[0].ops) > 0 {
+		x.commitReadFailed = false // a later commit that wrote something replaced the list
+	}
+	x.dirty, x.hashedDirty = false, false
+	x.durable = append(x.durable, wdurable{x.st.logLen(), x.croot, x.cweight, x.committed})
+	if want := canonRootW(x.live, nil); !bytes.Equal(root, want) {
+		x.fail(i, "root after commit %x differs from the canonical root %x of the live content", root, want)
+	}
+	for _, m := range checkReopen("after the commit batch", x.st, x.croot, x.cweight, x.committed) {
+		x.fail(i, "%s", m)
+	}
+	x.checkWeight(i)
+	return fmt.Sprintf("ok r=%x w=%d %s", root, x.cweight, wmFmtEntries(es))
 }
 
 func (x *wrun) opRollback(i int, kind string) string {
